@@ -33,7 +33,7 @@ RULE = (
 )
 ASSUMPTIONS = ["window sizes >= 1 and multipliers >= 1 (documented meaning of the stager parameters)"]
 
-SLOW, FAST, FINAL, MULT = [1, 2, 5, 25], [0, 1, 10, 75], [0, 1, 7, 50], [1.0, 1.5, 2.0, 3.0]
+SLOW, FAST, FINAL, MULT = [0, 1, 2, 5, 25], [0, 1, 10, 75], [0, 1, 7, 50], [1.0, 1.5, 2.0, 3.0]
 
 
 def enumerated(tier):
@@ -50,7 +50,7 @@ def enumerated(tier):
 @st.composite
 def _big(draw):
     return {"kind": "stages", "stager": "windowed", "n_warm": draw(st.integers(200, 100000)),
-            "win": [draw(st.integers(1, 500)), draw(st.integers(0, 2000)), draw(st.integers(0, 2000)),
+            "win": [draw(st.integers(0, 500)), draw(st.integers(0, 2000)), draw(st.integers(0, 2000)),
                     draw(st.sampled_from([1.0, 1.25, 2.0, 2.5, 4.0]))]}
 
 
@@ -173,6 +173,19 @@ def check_stages(res, case):
                         return
                     if n_warm - (warm[0].n_iter + warm[-1].n_iter) > 0 and not idx:
                         res.fail("C16:windowed:slow-adapters-never-active", ctx)
+                        return
+                    # "growing" windows: each slow window is the documented multiple of the one before it (rounded
+                    # down, at least one iteration); only the last window may be longer, absorbing the remainder
+                    ws = [warm[i].n_iter for i in idx]
+                    mult = win[3]
+                    for a, b_ in zip(ws[:-2], ws[1:-1]):
+                        if b_ != max(1, int(mult * a)):
+                            res.fail("C16:windowed:slow-windows-do-not-grow-by-the-multiplier", f"{ctx}: slow windows {ws[:12]}"
+                                     f", multiplier {mult}")
+                            return
+                    if len(ws) >= 2 and ws[-1] < max(1, int(mult * ws[-2])):
+                        res.fail("C16:windowed:last-slow-window-shorter-than-the-progression", f"{ctx}: slow windows "
+                                 f"{ws[:12]}, multiplier {mult}")
                         return
                 if label == "warmup" and warm and (len(warm) != 1):
                     res.fail("C16:warmup:more-than-one-warm-up-stage", ctx)
